@@ -34,6 +34,8 @@ def explore(ctx, label, rng, n, profile, target, no_append=False):
         ctx.count(f"{label}:{r['status']}" + (":" + r.get("mode", "") if r["status"] == "ok" else ""))
         for k in set(c.kinds):
             ctx.count("transform:" + k)
+        if r.get("engine_discrepancy"):
+            ctx.count("sqlite-optimizer-discrepancy (answer of the materialised query used)")
         if r["status"] == "ok":
             if len(ctx.samples) < 5 and nontrivial and len(c.sx) >= 3:
                 ctx.sample({"prql": c.prql.split("}\n", 1)[-1], "target": target, "sql": r["sql"][:300], "rows": r["rows"][:3], "compared_as": r["mode"]})
